@@ -207,6 +207,20 @@ Definition cop_of (h : heap) (o : sop) : cop :=
 (** model configuration: LTS state + which threads have been started *)
 Record cfg := CFG { cst : state; cstarted : list bool }.
 
+(** points at which a thread gives up two-phase locking (it acquires after
+    having released): between Get and Value of GetLeafValue, and between the
+    children of a Query.  Together with the hook points and blocked
+    acquisitions these are the only places where the interleaving with other
+    threads matters (every stretch between them is a sequence of acquisitions
+    followed by releases, which commutes with the other threads' steps), so
+    the acceptance check lets simultaneously runnable threads interleave at
+    exactly these points. *)
+Definition yield_pc (p : pc) : bool :=
+  match p with
+  | PHVal _ | PQEnter _ _ _ _ _ => true
+  | _ => false
+  end.
+
 Fixpoint run_thread (fuel : nat) (s : state) (i : nat) : state :=
   match fuel with
   | O => s
@@ -215,7 +229,7 @@ Fixpoint run_thread (fuel : nat) (s : state) (i : nat) : state :=
       | None => s
       | Some s' =>
           match nth_error (thr s') i with
-          | Some t => if park_pc (tpc t) || is_done (tpc t) then s' else run_thread f s' i
+          | Some t => if park_pc (tpc t) || is_done (tpc t) || yield_pc (tpc t) then s' else run_thread f s' i
           | None => s'
           end
       end
@@ -261,7 +275,7 @@ Definition advance (prog : list sop) (c : cfg) (i : nat) : list cfg :=
   let st' := set_nth (cstarted c) i true in
   (* leave the park point / PStart: one step that is always enabled *)
   let s2 := match step s1 i with Some s' => s' | None => s1 end in
-  map (fun s' => CFG s' st') (settle 12 s2 st').
+  map (fun s' => CFG s' st') (settle 24 s2 st').
 
 (** status of a thread: 0 not started, 1 parked at a hook, 2 blocked in a mutex, 3 finished *)
 Definition status_of (c : cfg) (i : nat) : nat :=
@@ -379,15 +393,53 @@ Definition sched_history (prog : list sop) (obs : list sobs) (results : list are
     root lock must be held by someone. *)
 Definition is_hold (o : sop) : bool := match o with SHold _ _ => true | _ => false end.
 
+(** operations that, at least in their last phase, lock a single node without
+    holding the root: paused updates and the Value() part of GetLeafValue *)
+Definition handleish (o : sop) : bool :=
+  match o with SHold _ _ | SGetVal _ => true | _ => false end.
+
+Definition sop_path (o : sop) : path :=
+  match o with SAdd p _ | SGetVal p | SQuery p | SDelete p | SHold p _ => p end.
+
 Definition coupling_ok (prog : list sop) (o : sobs) : bool :=
   let idx := seq 0 (List.length prog) in
   let stat := fun i => nth i (so_status o) 0%nat in
-  let kind_hold := fun i => match nth_error prog i with Some x => is_hold x | None => false end in
+  let kind := fun f i => match nth_error prog i with Some x => f x | None => false end in
   let root_free := existsb (fun pc => is_nil (fst pc) && Nat.eqb (snd pc) 0) (so_locks o) in
-  let tree_blocked := existsb (fun i => negb (kind_hold i) && Nat.eqb (stat i) 2) idx in
-  let handle_active := existsb (fun i => kind_hold i && (Nat.eqb (stat i) 1 || Nat.eqb (stat i) 2)) idx in
+  let tree_blocked := existsb (fun i => negb (kind handleish i) && Nat.eqb (stat i) 2) idx in
+  let handle_active :=
+    existsb (fun i => kind handleish i && (Nat.eqb (stat i) 1 || Nat.eqb (stat i) 2)) idx in
   let below_busy := existsb (fun pc => negb (is_nil (fst pc)) && negb (Nat.eqb (snd pc) 0)) (so_locks o) in
   negb root_free || (negb tree_blocked && (negb below_busy || handle_active)).
+
+(** a GetLeafValue that was started while a paused update already held the
+    write lock of the very leaf it asks for, and is blocked while that update
+    is still paused, cannot have reached the leaf: it waits inside Get and so
+    must hold the root lock. *)
+Definition get_coupling_ok (prog : list sop) (obs : list sobs) (k : nat) : bool :=
+  match nth_error obs k with
+  | None => true
+  | Some o =>
+      let root_free := existsb (fun pc => is_nil (fst pc) && Nat.eqb (snd pc) 0) (so_locks o) in
+      negb root_free ||
+      forallb (fun g =>
+        match nth_error prog g with
+        | Some (SGetVal p) =>
+            negb (Nat.eqb (nth g (so_status o) 0%nat) 2) ||
+            match first_idx (fun x => Nat.eqb (so_tid x) g) obs 0 with
+            | Some (S a) =>
+                negb (existsb (fun w =>
+                        match nth_error prog w, nth_error obs a with
+                        | Some (SHold q _), Some oa =>
+                            path_eqb p q && Nat.eqb (nth w (so_status oa) 0%nat) 1
+                            && Nat.eqb (nth w (so_status o) 0%nat) 1
+                        | _, _ => false
+                        end) (seq 0 (List.length prog)))
+            | _ => true
+            end
+        | _ => true
+        end) (seq 0 (List.length prog))
+  end.
 
 Definition sched_check (prog : list sop) (obs : list sobs) (results : list ares) (final : flat)
   : list (nat * N) :=
@@ -397,6 +449,8 @@ Definition sched_check (prog : list sop) (obs : list sobs) (results : list ares)
                else [(List.length obs, 1%N)]
    end)
   ++ map (fun i => (i, 6%N)) (find_idx (fun o => negb (coupling_ok prog o)) obs 0)
+  ++ map (fun i => (i, 6%N))
+         (filter (fun k => negb (get_coupling_ok prog obs k)) (seq 0 (List.length obs)))
   ++ window_check [] (sched_history prog obs results) final.
 
 (** ** cases *)
